@@ -292,6 +292,41 @@ func scanSuite(full func() iterator.Iterator, ranged func(lo, hi []byte) iterato
 					return fmt.Sprintf("range-seek\nrange [%q,%q) Seek(%q): %s", lo, hi, t, d)
 				}
 			}
+			// re-positioning one iterator: after SeekToFirst (and after each earlier Seek) every target again, in
+			// both orders, including targets before lo and at or behind hi
+			{
+				it := ranged(lo, hi)
+				it.SeekToFirst()
+				order := append(append([][]byte{}, targets...), nil)
+				for i := len(targets) - 1; i >= 0; i-- {
+					order = append(order, targets[i])
+				}
+				for _, t := range order {
+					if t == nil {
+						it.SeekToLast()
+						continue
+					}
+					it.Seek(t)
+					eff := t
+					if lo != nil && bytes.Compare(eff, lo) < 0 {
+						eff = lo
+					}
+					if it.Valid() && (bytes.Compare(it.Key(), eff) < 0 || (hi != nil && bytes.Compare(it.Key(), hi) >= 0)) {
+						return fmt.Sprintf("range-reseek-position\nrange [%q,%q): Seek(%q) on an already positioned iterator lands on %q", lo, hi, t, it.Key())
+					}
+					for it.Valid() && it.IsTombstone() {
+						it.Next()
+					}
+					w := sub(eff, hi)
+					if len(w) == 0 {
+						if it.Valid() {
+							return fmt.Sprintf("range-reseek\nrange [%q,%q): Seek(%q) on an already positioned iterator yields %q, nothing is live there", lo, hi, t, it.Key())
+						}
+					} else if !it.Valid() || string(it.Key()) != w[0].K || string(it.Value()) != string(w[0].V) {
+						return fmt.Sprintf("range-reseek\nrange [%q,%q): Seek(%q) on an already positioned iterator yields valid=%v %q, first live key there is %q", lo, hi, t, it.Valid(), it.Key(), w[0].K)
+					}
+				}
+			}
 			// SeekToLast inside the range: greatest key (live or deleted) below hi and >= lo
 			var g *string
 			for i := range everKeys {
